@@ -86,7 +86,43 @@ fn alphabet() -> Vec<Tpl> {
         tpl("c = do {\n a = x => x * 2\n return [a]\n}", Some("c"), &["c"], &["a", "c"]),
         tpl("c[0](5)", None, &[], &["c"]),
         tpl("c = do {\n b = f\n return b(1)\n}", Some("c"), &["c"], &["b", "c", "f"]),
+        // a nested assignment to the statement's own target; a do-block local that gives an outer function a new name
+        tpl("a = (a = 1) + a", Some("a"), &["a", "a"], &["a"]),
+        tpl("c = do {\n a = f\n return 1\n}", Some("c"), &["c"], &["a", "c", "f"]),
     ]
+}
+
+/// The same alphabet with every bound integer literal (`= 1`, `= 10`, `(b = 7)` ...) replaced by another kind of
+/// value: immutability must not depend on what a name holds (null, false, zero, empty values).
+const VARIANT_VALUES: [&str; 6] = ["null", "false", "0", "\"\"", "[]", "{}"];
+
+fn variant_alphabet(v: usize) -> Vec<Tpl> {
+    let lit = VARIANT_VALUES[v % VARIANT_VALUES.len()];
+    alphabet()
+        .into_iter()
+        .map(|mut t| {
+            let cs: Vec<char> = t.src.chars().collect();
+            let mut out = String::new();
+            let mut i = 0;
+            while i < cs.len() {
+                // "= <digits>" preceded by a space or '(' and not part of "==" / "=>" / "<=" / ">="
+                if cs[i] == '=' && i + 2 < cs.len() && cs[i + 1] == ' ' && cs[i + 2].is_ascii_digit() && i > 0 && cs[i - 1] == ' ' {
+                    let mut j = i + 2;
+                    while j < cs.len() && cs[j].is_ascii_digit() {
+                        j += 1;
+                    }
+                    out.push_str("= ");
+                    out.push_str(lit);
+                    i = j;
+                    continue;
+                }
+                out.push(cs[i]);
+                i += 1;
+            }
+            t.src = out;
+            t
+        })
+        .collect()
 }
 
 const FORBIDDEN: [&str; 16] = ["if", "then", "else", "true", "false", "null", "and", "or", "not", "do", "return", "output", "constants", "sum", "map", "len"];
@@ -98,6 +134,8 @@ struct Monitor<'a> {
     heap_marks: Vec<Option<u64>>,
     steps: usize,
     heap_check_every: usize,
+    /// results of calling each function-valued top-level name with fixed arguments, after the previous statement
+    probes: BTreeMap<String, Vec<crate::rt::ROut>>,
 }
 
 fn fp(h: &blots_core::heap::Heap, i: usize) -> Option<u64> {
@@ -111,7 +149,7 @@ fn env_map(sess: &Sess) -> BTreeMap<String, Value> {
 impl<'a> Monitor<'a> {
     fn new(sess: &'a Sess) -> Monitor<'a> {
         let inputs = sess.env.get("inputs").map(|v| sess.rval(&v)).unwrap_or(RVal::Null);
-        Monitor { sess, model: BTreeMap::new(), inputs_snapshot: inputs, heap_marks: Vec::new(), steps: 0, heap_check_every: 1 }
+        Monitor { sess, model: BTreeMap::new(), inputs_snapshot: inputs, heap_marks: Vec::new(), steps: 0, heap_check_every: 1, probes: BTreeMap::new() }
     }
 
     fn snapshot_heap(&mut self) {
@@ -134,6 +172,7 @@ impl<'a> Monitor<'a> {
         let res = self.sess.run(&t.src, false);
         verif_hooks::set_recording(false);
         let muts = verif_hooks::take_heap_muts();
+        let overwrites = verif_hooks::take_env_overwrites();
         let out = match res {
             Ok(mut o) if o.len() == 1 => Some(o.remove(0).out),
             Ok(_) => None,
@@ -141,6 +180,13 @@ impl<'a> Monitor<'a> {
         };
         let after = env_map(self.sess);
         let case = |extra: serde_json::Value| json!({"history": history, "statement": t.src, "detail": extra});
+        // H5: the top-level scope never has a binding replaced, not even for the duration of one statement
+        let top = std::rc::Rc::as_ptr(&self.sess.env) as usize;
+        for (scope, name) in overwrites.iter() {
+            if *scope == top {
+                v.push(("top-level-binding-overwritten".to_string(), "a statement replaced a binding of the top-level scope".to_string(), case(json!({"name": name}))));
+            }
+        }
         // I1 stability: every earlier name still bound to the identical value, and the value deep-equal to its snapshot
         for (name, (val, snap)) in self.model.iter() {
             match after.get(name) {
@@ -243,6 +289,32 @@ impl<'a> Monitor<'a> {
                 other => v.push(("lookup-fails".to_string(), "a bound name cannot be read".to_string(), case(json!({"name": name, "out": other.msg()})))),
             }
         }
+        // I7 behaviour through the name: calling a bound function with fixed arguments gives the same result after
+        // every later statement, unless that statement bound a new top-level name the function's body mentions
+        // (a free name not bound at definition is looked up at the call)
+        {
+            let new_names: Vec<&String> = after.keys().filter(|k| !before.contains_key(*k)).collect();
+            let mut now: BTreeMap<String, Vec<crate::rt::ROut>> = BTreeMap::new();
+            for (name, (_, snap)) in self.model.iter() {
+                if let RVal::Fn { body, .. } = snap {
+                    if FORBIDDEN.contains(&name.as_str()) {
+                        continue;
+                    }
+                    let results: Vec<crate::rt::ROut> = [format!("{}(3)", name), format!("{}()", name)].iter().map(|src| self.sess.rout(&self.sess.eval(src))).collect();
+                    if let Some(prev) = self.probes.get(name) {
+                        let words: Vec<&str> = body.split(|c: char| !(c.is_alphanumeric() || c == '_')).collect();
+                        let excused = new_names.iter().any(|n| words.contains(&n.as_str()));
+                        // (error messages are not compared: they may mention the name a function was last given)
+                        let same = prev.len() == results.len() && prev.iter().zip(results.iter()).all(|(p, q)| p.agrees(q));
+                        if !same && !excused {
+                            v.push(("function-behaviour-changed".to_string(), "a bound function returns something else for the same arguments after a later statement that bound none of its free names".to_string(), case(json!({"name": name, "function": snap.show(), "calls": [format!("{}(3)", name), format!("{}()", name)], "before": prev.iter().map(|r| r.show()).collect::<Vec<_>>(), "after": results.iter().map(|r| r.show()).collect::<Vec<_>>()}))));
+                        }
+                    }
+                    now.insert(name.clone(), results);
+                }
+            }
+            self.probes = now;
+        }
         // I6 predicted inner values for the simple shadowing templates
         if let Some(Out::Ok(val)) = &out {
             let r = self.sess.rval(val);
@@ -301,7 +373,11 @@ fn random_template(r: &mut Rng, names: &[&str]) -> Tpl {
     let z = *r.pick(names);
     let k = r.below(1000);
     match r.below(22) {
-        0 | 1 | 2 => tpl(&format!("{} = {}", x, k), Some(x), &[x], &[x]),
+        0 => {
+            let val = *r.pick(&["null", "false", "0", "\"\"", "[]", "{}", "-0", "true", "inputs.missing"]);
+            tpl(&format!("{} = {}", x, val), Some(x), &[x], &[x])
+        }
+        1 | 2 => tpl(&format!("{} = {}", x, k), Some(x), &[x], &[x]),
         3 => tpl(&format!("{} = {}", x, y), Some(x), &[x], &[x, y]),
         4 => tpl(&format!("{} = [{}, {}, \"s{}\"]", x, y, z, k), Some(x), &[x], &[x, y, z]),
         5 => tpl(&format!("{} = {{k: {}, j: [{}]}}", x, y, z), Some(x), &[x], &[x, y, z]),
@@ -357,6 +433,27 @@ pub fn run(ctx: &Ctx, sink: &mut Sink) {
             run_sequence(sink, &seq, &format!("seq|{}|{}", len, code));
         }
     }
+    // ---- the same, exhaustively up to length 3, for each value variant of the alphabet
+    for v in 0..VARIANT_VALUES.len() {
+        let va = variant_alphabet(v);
+        for len in 1..=3usize {
+            let total = (n as u64).pow(len as u32);
+            for code in 0..total {
+                idx += 1;
+                if !ctx.mine(idx) {
+                    continue;
+                }
+                let mut c = code;
+                let mut seq: Vec<&Tpl> = Vec::with_capacity(len);
+                for _ in 0..len {
+                    seq.push(&va[(c % n as u64) as usize]);
+                    c /= n as u64;
+                }
+                run_sequence(sink, &seq, &format!("vseq|{}|{}|{}", v, len, code));
+            }
+        }
+    }
+    sink.count("value_variants_of_alphabet", VARIANT_VALUES.len() as u64);
     // longer exhaustive level is sampled: length max_len+1
     let extra = ctx.budget(60_000, 1_500_000);
     let total = (n as u64).pow((max_len + 1) as u32);
